@@ -63,6 +63,15 @@ def gen_cases(rng, tier):
             ts = rand_ts(rng, w, h)
         cases.append(("pat_px", [kind, sw, sh, rng.getrandbits(40), int(rng.random() < 0.25), ox, oy] + ts +
                       [rng.randrange(3), rng.randrange(3), f2b(rng.choice([1.0, 1.0, 1.0, 0.5, 0.999, 0.0])), rng.randrange(2), rng.randrange(3), w, h]))
+    # Shader::transform: a pattern with a scale / flip / rotation of its own under a translate-only draw transform (kind 3)
+    for i in range(80 if q else 1000):
+        w, h = rng.choice([(24, 20), (33, 9), (16, 16)])
+        sw, sh = rng.choice([(2, 3), (5, 3), (7, 4), (8, 8), (3, 1), (1, 5)])
+        k = i % 4
+        own = [[f2b(2.0), 0, 0, f2b(3.0), f2b(1.0), f2b(2.0)], [f2b(-1.0), 0, 0, f2b(1.0), f2b(float(w)), 0],
+               [0, f2b(1.0), f2b(-1.0), 0, f2b(float(h)), 0], [f2b(1.5), f2b(0.5), f2b(-0.25), f2b(0.75), f2b(3.0), f2b(1.0)]][k]
+        cases.append(("pat_px", [3, sw, sh, rng.getrandbits(40), 0, rng.randint(-4, 6), rng.randint(-3, 4)] + own +
+                      [rng.randrange(3), rng.choice([0, 0, 1]), f2b(1.0), rng.randrange(2), rng.randrange(3), w, h]))
     # the whole nearest-neighbour coordinate chain (seed_shader, transform, tiling, gather) through the public API:
     # which source pixel every destination pixel receives, bit-exact against Model/Nearest.v
     for i in range(700 if q else 8000):
@@ -161,6 +170,7 @@ WHAT = {1: "nearest sampling returned a different source pixel (got r*1000+a %d,
         5: "a constant-colour image is not reproduced (got r*1000+a %d, expected %d)",
         7: "an anti-aliased edge pixel of a Pattern fill does not lie its coverage's share of the way from the destination to the interior colour (got %d, expected %d): the pattern opacity is not applied on edge pixels as on interior ones",
         8: "an interior pixel of a constant-colour Pattern fill is not the source scaled by the opacity and blended (got %d, expected %d)",
+        9: "a Pattern with its own transform drawn through a translate-only draw transform differs from the pattern built with the composed transform (got r*1000+a %d, composed %d)",
         6: "a channel differs from the reference (filter taps and weights at the mapped position, clamps, opacity, blend): got %d, reference %d"}
 
 
